@@ -29,8 +29,13 @@ func TestBoundedC03Access(t *testing.T) {
 	}
 	allowedOps, deniedOps := 0, 0
 	for _, storage := range []string{"hashmap", "bbolt", "fstree", "badger"} {
-		for _, cache := range []int{0, 64} {
-			dbName := fmt.Sprintf("c03-%s-%d", storage, cache)
+		for _, cache := range []int{0, 64, -64} {
+			// -64: a cache of 64 entries with delayed writes (needs batch support in the backend)
+			delayed := cache < 0
+			if delayed && storage != "hashmap" && storage != "bbolt" {
+				continue
+			}
+			dbName := fmt.Sprintf("c03-%s-%d-%v", storage, cache*cache, delayed)
 			if _, err := Register(&Database{Name: dbName, Description: "bounded", StorageType: storage}); err != nil {
 				t.Fatal(err)
 			}
@@ -69,6 +74,9 @@ func TestBoundedC03Access(t *testing.T) {
 								return
 							}
 							iface := NewInterface(&Options{Local: local, Internal: internal, CacheSize: cache})
+							if delayed {
+								iface = NewInterface(&Options{Local: local, Internal: internal, CacheSize: -cache, DelayCachedWrites: dbName})
+							}
 							if priv == 4 {
 								iface = NewInterface(nil)
 							}
@@ -141,6 +149,10 @@ func TestBoundedC03Access(t *testing.T) {
 									opErr = errors.New("n/a") // no batch support in this backend
 								}
 							}
+							// (delayed writes are brought to the storage first)
+							if delayed && priv != 4 {
+								iface.flushWriteCache(0)
+							}
 							// what is stored now, seen by the privileged interface (fresh, without cache)
 							after, aerr := NewInterface(&Options{Local: true, Internal: true}).Get(key)
 							changed := false
@@ -189,7 +201,7 @@ func TestBoundedC03Access(t *testing.T) {
 	if allowedOps == 0 || deniedOps == 0 {
 		fail(fmt.Sprintf("vacuous harness: %d permitted, %d forbidden operations", allowedOps, deniedOps))
 	}
-	fmt.Printf("BOUNDED name=C03/access-matrix cases=%d distinct=%d bound=14 operations (get, exists, query, subscribe, put, put-new, attribute insert, absolute / relative expiry, make-secret, make-crown-jewel, delete, purge, batch put) x 5 interfaces (4 privilege combinations and one created without options) x 4 record flag combinations x hashmap, bbolt, fstree, badger x read cache off/on, each on a record written by a privileged interface; checked through a privileged interface afterwards: a forbidden operation returns, lists or pushes nothing, leaves the stored record and its flags unchanged and does not report success (%d forbidden, %d permitted operations)\n", cases, cases, deniedOps, allowedOps)
+	fmt.Printf("BOUNDED name=C03/access-matrix cases=%d distinct=%d bound=14 operations (get, exists, query, subscribe, put, put-new, attribute insert, absolute / relative expiry, make-secret, make-crown-jewel, delete, purge, batch put) x 5 interfaces (4 privilege combinations and one created without options) x 4 record flag combinations x hashmap, bbolt, fstree, badger x read cache off/on (hashmap and bbolt also with delayed writes, flushed before the storage is looked at), each on a record written by a privileged interface; checked through a privileged interface afterwards: a forbidden operation returns, lists or pushes nothing, leaves the stored record and its flags unchanged and does not report success (%d forbidden, %d permitted operations)\n", cases, cases, deniedOps, allowedOps)
 	if fails > 0 {
 		t.Fatalf("%d of %d cases fail", fails, cases)
 	}
